@@ -80,12 +80,80 @@ def interleaved_job(arg):
     return rep
 
 
+def moved_internal_job(arg):
+    """One data directory used with two internal directories in turn (the blob store was moved, or a fresh cache
+    directory is used): after the evaluation with the second one every path resolves through it - also once the first
+    internal directory is gone."""
+    import os
+    import pickle
+    import shutil
+
+    from vp import gen
+    from vp.worker import run_segment
+
+    p0, cache, idx = arg
+    rep = core.Report("C04")
+    rep.evaluations = 1
+    f = p0["fns"][p0["entry"]]
+    ent = {"style": "eval", "module": gen.modname(p0, f["module"]), "func": f["name"], "args_src": "()"}
+    paths = sorted(gen.kept_nodes(p0))
+    case = {"moved_internal": True, "program": p0, "cache": cache, "idx": idx}
+    with core.Scratch("vp_c04m_") as td:
+        root, ia, ib, d = (os.path.join(td, x) for x in ("code", "internal_a", "internal_b", "data"))
+        os.makedirs(root)
+
+        def seg(internal, steps):
+            return {"mode": "impl", "root": root, "accept": [p0["pkg"]], "store": {"kind": "local", "dir": td},
+                    "store_via_api": {"args": ["local"], "kwargs": {"internal_dir": internal, "data_dir": d, "cache_objects": cache}}, "steps": steps}
+
+        ev = {"write": gen.render(p0), "how": "import", "modules": gen.import_order(p0), "entry": ent, "post_loads": paths}
+        a = core.fork_call(run_segment, seg(ia, [ev]), timeout=600)
+        b = core.fork_call(run_segment, seg(ib, [ev]), timeout=600)
+        shutil.rmtree(ia, ignore_errors=True)
+        c = core.fork_call(run_segment, seg(ib, [{"how": "none", "post_loads": paths}]), timeout=300)
+        ref = core.fork_call(run_segment, {"mode": "ref", "root": root, "accept": [], "steps": [dict(ev)]}, timeout=300)
+        raw = {}
+        for pth in paths:
+            fp = os.path.join(d, pth.lstrip("/"))
+            raw[pth] = (os.path.realpath(fp), os.path.exists(fp))
+    if any(isinstance(x, core.JobFailed) for x in (a, b, c, ref)):
+        rep.inconclusive.append("moved-internal worker failed")
+        return rep
+    for x in a["steps"] + b["steps"] + c["steps"] + ref["steps"]:
+        if "setup_error" in x:
+            rep.inconclusive.append("setup error: %s" % x["setup_error"][-300:])
+            return rep
+    model = dict((pth, pickle.loads(v)) for pth, v in ref["steps"][0]["kept"])
+    rr = ref["steps"][0]["result"]
+    for label, o in (("first internal directory", a["steps"][0]), ("second internal directory", b["steps"][0])):
+        r = o["result"]
+        if r[0] != "ok" or rr[0] != "ok" or pickle.loads(r[1]) != pickle.loads(rr[1]):
+            rep.violate("evaluation with the %s returned %s" % (label, r[2][:100] if r[0] == "ok" else r[1:3]), case, mechanism="moved-internal-wrong-value")
+            return rep
+    for label, loads in (("right after the evaluation with the second internal directory", b["steps"][0]["loads"]), ("after the first internal directory was removed", c["steps"][0]["loads"])):
+        for pth, val in model.items():
+            rep.count("path_loads_checked")
+            lv = loads.get(pth)
+            if lv is None or lv[0] != "ok" or pickle.loads(lv[1]) != val:
+                rep.violate("one data directory, two internal directories in turn (cache_objects=%r): %s load(%s) gives %s, the keep returned %r" % (cache, label, pth, (lv[2][:80] if lv and lv[0] == "ok" else lv and lv[1:3]), val),
+                            case, mechanism="moved-internal-path-not-recommitted")
+                return rep
+    for pth, (target, exists) in raw.items():
+        rep.count("raw_files_checked")
+        if pth in model and not (exists and (target + "/").startswith(ib + "/")):
+            rep.violate("one data directory, two internal directories in turn: the entry of %s under the data directory leads to %s, not into the internal directory of the latest evaluation" % (pth, target),
+                        case, mechanism="moved-internal-path-not-recommitted")
+            return rep
+    rep.nontriv(("c04m", gen.h(gen.render(p0)), repr(cache)))
+    return rep
+
+
 def run(tier, seed):
     rep = core.Report("C04")
     rep.rule = (
         "random programs (paths of 1-4 segments with shared directories, literal / module-variable / pathlib paths, tuple and str results) with 6-10 step edit histories on memory, local, local+cache and "
         "DBFS(fake); edit matrix subset; path-shape programs (concatenation-ambiguous names, shared directories, 1-4 segments, re-keep with changed code, paths dropped by an edit). After each step every path kept "
-        "so far is loaded in the same and in a fresh process; interleaved sessions (A evaluates, another process evaluates an edited version, A evaluates again) "
+        "so far is loaded in the same and in a fresh process; one data directory used with two internal directories in turn; interleaved sessions (A evaluates, another process evaluates an edited version, A evaluates again) "
         " and, for str results on file stores, read from the data directory. distinct_nontrivial = distinct cases with a store hit."
     )
     cases = build_cases(tier, seed)
@@ -105,6 +173,12 @@ def run(tier, seed):
             rep.inconclusive.append("interleaved job: %r" % (r,))
         else:
             rep.merge(r)
+    mjobs = [(q, c, i) for i, q in enumerate(progsi[: (4 if tier == "quick" else 16)]) for c in (None, 3)]
+    for j, r in zip(mjobs, core.fork_map(moved_internal_job, mjobs, timeout=1800)):
+        if isinstance(r, core.JobFailed):
+            rep.inconclusive.append("moved-internal job: %r" % (r,))
+        else:
+            rep.merge(r)
     rep.sample({"case": cases[0]["name"], "history": cases[0]["history"][:5]})
     if rep.counters.get("path_loads_checked", 0) == 0:
         rep.inconclusive.append("no path load was observed")
@@ -116,6 +190,10 @@ def replay(payload):
     from vp import e1
 
     rep = core.Report("C04")
+    if payload["case"].get("moved_internal"):
+        c = payload["case"]
+        rep.merge(moved_internal_job((c["program"], c["cache"], c["idx"])))
+        return rep
     if payload["case"].get("interleaved"):
         c = payload["case"]
         rep.merge(interleaved_job((c["program"], c["store"], c["idx"])))
